@@ -19,6 +19,8 @@ EXPLANATION = (
     "simulator's StandardValidator) pass segment_id/timestamp of the info field and exp_time/cons_ingress/cons_egress of the "
     "hop field, and their Ok exit is controlled by equality of the result with the hop field's mac()."
 )
+EXPLANATION_ADD = ' Additions: (VAL-flow) every validator verdict computed by advance_*_with_validator is part of the decided value on every arm; (GS-mac-bypass) the only way around the MAC comparison is the bare ignore_macs flag.'
+EXPLANATION = EXPLANATION + EXPLANATION_ADD
 RESIDUAL = ["that the chaining rules make every authentic path verify at every hop in both directions (values)",
             "tamper detection 'no later than at the owning AS' (values)"]
 ASSUMPTIONS = ["cmac/aes crates compute AES-CMAC", "Ok(ValidationFailed(..)) is by the documented API contract an advanced path plus a verdict, not a failure"]
